@@ -229,7 +229,10 @@ PROPS["C05"] = dict(
     functions=[_EH + f for f in ("_get_shared_secret", "generate_sharedsecret", "generate_sharedsecret_bytes", "load_private_key", "load_received_public_key",
                                  "load_received_public_key_bytes", "load_received_public_key_der", "load_received_public_key_pem",
                                  "load_private_key_bytes", "load_private_key_der", "load_private_key_pem")] + ["ecdsa.util.number_to_string", "ecdsa.util.orderlen",
-                                                                                                                  "ecdsa.keys.VerifyingKey.from_string", "ecdsa.ecdsa.Public_key.__init__", "ecdsa.ecdsa.point_is_valid"],
+                                                                                                                  "ecdsa.keys.VerifyingKey.from_string", "ecdsa.ecdsa.Public_key.__init__", "ecdsa.ecdsa.point_is_valid",
+                                                                                                                  # "keys on another curve" is decided by Curve.__eq__: the ECDH contracts apply it as `equal iff same
+                                                                                                                  # coefficients, order and base point`, so its own contract is part of this property (seed C05/3)
+                                                                                                                  "ecdsa.curves.Curve.__eq__"],
     lemmas=["C05.both_parties_agree"],
     bounded=[],
     min_obligations=20,
